@@ -1320,8 +1320,9 @@ impl<'a, B: BitmapSlice> From<VolatileSlice<'a, B>> for VolatileArrayRef<'a, u8,
 // Return the largest value that `addr` is aligned to. Forcing this function to return 1 will
 // cause test_non_atomic_access to fail.
 fn alignment(addr: usize) -> usize {
-    // Rust is silly and does not let me write addr & -addr.
-    addr & (!addr + 1)
+    // Rust is silly and does not let me write addr & -addr. The negation must wrap: `!addr + 1`
+    // overflows for a null address (the pointer of an unmapped Xen grant region at offset 0).
+    addr & addr.wrapping_neg()
 }
 
 pub(crate) mod copy_slice_impl {
